@@ -37,6 +37,8 @@ def _strategy(draw):
     for i in range(draw(st.integers(1, 2))):
         a = gen.a_orderbook(draw, cx, "ob%d" % i, n_max=8 if not full else 5)
         a["full_exec"] = full
+        if draw(st.integers(0, 3)) == 0:
+            a["orders_form"] = "frame"       # the documented DataFrame form (stamps zone-aware on aware grids)
         assets.append(a)
     for i in range(draw(st.integers(0, 3))):
         cls = draw(st.sampled_from(["simple", "storage", "contract", "transport"]))
